@@ -131,3 +131,27 @@ func (c *Ctx) checkResolutionLatch(m *encModel) {
 			"the path's resolution is not changed inside the path", shortKey(r.field("highResolutionCoordinates")))
 	}
 }
+
+// quantizedArg: for a call of the coordinate quantiser kept opaque, the coordinate it is applied to - its one
+// float-typed argument, whether the quantiser is a method (e, x) or a function taking the resolution flag.
+func quantizedArg(v *sym.Term) *sym.Term {
+	if v == nil || v.Op != "call" || v.Name != "quantize" {
+		return nil
+	}
+	var out *sym.Term
+	for _, a := range v.Args {
+		if a == nil || a.T == nil {
+			continue
+		}
+		if b, ok := a.T.Underlying().(*types.Basic); ok && b.Info()&types.IsFloat != 0 {
+			if out != nil {
+				return nil
+			}
+			out = a
+		}
+	}
+	if out == nil && len(v.Args) == 2 {
+		return v.Args[1]
+	}
+	return out
+}
